@@ -83,6 +83,8 @@ Oracle calibration (weaker readings taken, derived by reading __pollThread of th
 Not covered: CPU time of the loop itself, real thread interleavings of setFastPoll/update_interval with the loop
 (the set/clear race on the trigger event), reconnect callbacks of real IO modules (C16).
 """
+import bisect
+
 from vf import core
 from vf.engines import enumx
 
@@ -104,6 +106,7 @@ def call_answers(base):
     first = (0.3, 'ok') if base == 'busy' else (0, 'ok')
     return [first] + [x for x in CALL_ANSWERS if x != first]
 EVENT_FRACTION = 0.25
+EVENT_CAP = 36           # horizon in choice points of the 'events only' configurations
 
 
 class Horizon(BaseException):
@@ -134,6 +137,7 @@ class Run:
         self.spin = 0
         self.tick = TICK
         self.spun = False
+        self.escaped_injected = False
         self.answers = call_answers(cfg.get('base', 'idle'))
 
     # --- clock
@@ -168,7 +172,8 @@ class Run:
     # --- driver calls
     def call(self, mod, fn, interval):
         self.worked()
-        i, a = self.choice(len(self.answers))
+        # in an 'events only' configuration driver calls take their default answer and are no deviation points (arity 1)
+        i, a = self.choice(1 if self.cfg.get('devs') == 'events' else len(self.answers))
         dur, out = self.answers[a]
         dur *= interval
         if a:
@@ -216,6 +221,8 @@ class Run:
             mod.write_pollinterval(val)      # what `change <mod>:pollinterval <val>` does
         elif kind == 'fast':
             mod.setFastPoll(val)
+        elif kind == 'fast0':
+            mod.setFastPoll(True, 0)         # fast polling "as fast as possible": an interval of exactly 0
         elif kind == 'trig':
             mod.pollInfo.trigger(True)
 
@@ -450,6 +457,8 @@ class World:
                 if v != pi:
                     self.event_alphabet.append(('ival', name, v))
             self.event_alphabet += [('fast', name, True), ('fast', name, False), ('trig', name, None)]
+            if cfg.get('events') == 'ext':
+                self.event_alphabet.append(('fast0', name, None))
 
     def reset(self):
         for name, m in self.mods.items():
@@ -481,6 +490,7 @@ class World:
         except Exception as e:      # the thread would have died
             last = next((r for r in reversed(run.trace) if r[0] == 'call'), None)
             run.end = ('exception', type(e).__name__, last[2] if last else None)
+            run.escaped_injected = e.args == ('fake failure',)
         finally:
             CUR = None
         run.t_end = run.t
@@ -496,9 +506,31 @@ class World:
 # ---------------------------------------------------------------------------------------------
 # monitors
 
-def idle_time(calls, a, b):
-    """time within (a, b) the thread did not spend inside a driver call (sleeping - or spinning)"""
-    return (b - a) - sum(max(0.0, min(c[4], b) - max(c[3], a)) for c in calls)
+class Busy:
+    """index over the driver calls of one execution (chronological, never overlapping: one thread)"""
+
+    def __init__(self, calls):
+        self.calls = calls
+        self.starts = [c[3] for c in calls]
+        self.ends = [c[4] for c in calls]
+        self.cum = [0.0]
+        for c in calls:
+            self.cum.append(self.cum[-1] + (c[4] - c[3]))
+
+    def upto(self, x):
+        """time spent inside driver calls before x"""
+        i = bisect.bisect_right(self.starts, x)
+        if i == 0:
+            return 0.0
+        return self.cum[i - 1] + min(self.ends[i - 1], x) - self.starts[i - 1]
+
+    def idle(self, a, b):
+        """time within (a, b) the thread did not spend inside a driver call (sleeping - or spinning)"""
+        return (b - a) - (self.upto(b) - self.upto(a))
+
+    def started_between(self, a, b):
+        """calls with a < start < b"""
+        return self.calls[bisect.bisect_right(self.starts, a):bisect.bisect_left(self.starts, b)]
 
 
 def rel(run, t):
@@ -511,6 +543,7 @@ def judge(world, run):
     trace = run.trace
     waits = [(r[1], r[2]) for r in trace if r[0] == 'wait']
     calls = [r for r in trace if r[0] == 'call']
+    busy = Busy(calls)
     t_end = run.t_end
     kind, exc, where = run.end
 
@@ -518,11 +551,11 @@ def judge(world, run):
     died = False
     if kind == 'exception':
         died = True
-        outs = [r[5] for r in calls if r[5] != 'ok']
-        last_out = outs[-1] if outs else 'none'
-        cat = {'valueerror': 'non-SECoPError', 'none': 'no-injected-failure'}.get(last_out, 'SECoPError')
-        if last_out == 'comfail':
-            cat = 'CommunicationFailedError'
+        last_out = calls[-1][5] if calls else 'ok'
+        if run.escaped_injected and last_out != 'ok':
+            cat = {'valueerror': 'non-SECoPError', 'comfail': 'CommunicationFailedError'}.get(last_out, 'SECoPError')
+        else:
+            cat = f'not-injected-{exc}'          # the poll code itself raised
         res.append((f'C13:thread:killed-by-exception:in={FNKIND.get(where, where)}:{cat}',
                     f'{exc} left the poll thread body after the call of {where} at t={rel(run, t_end)}'))
     elif kind == 'returned':
@@ -552,10 +585,10 @@ def judge(world, run):
     events = [r for r in trace if r[0] == 'event']
     # M1 main polls
     for name, cname, pi, _ in world.polled:
-        pollint, fast, ival = pi, False, pi
+        pollint, fast, ival, fast_ival, changed_in_fast = pi, False, pi, FAST, False
         due = None
         after = 'startup'
-        items = sorted([(r[1], 0, r) for r in events if r[3] == name and r[2] in ('ival', 'fast')]
+        items = sorted([(r[1], 0, r) for r in events if r[3] == name and r[2] in ('ival', 'fast', 'fast0')]
                        + [(r[3], 1, r) for r in calls if r[1] == name and r[2] == 'doPoll']
                        + [(t, 1, ('started', t)) for t in started[:1]] + [(t_end, 2, ('end', t_end))],
                        key=lambda x: x[:2])
@@ -563,12 +596,19 @@ def judge(world, run):
             if r[0] == 'event':
                 if r[2] == 'ival':
                     pollint = r[4]
-                    ival = max(FAST, pollint) if fast else pollint
+                    ival = max(fast_ival, pollint) if fast else pollint
+                    changed_in_fast = fast
                     after = 'interval-change'
+                elif r[2] == 'fast0':
+                    fast, fast_ival, ival = True, 0, 0
+                    after = 'fast-on-with-zero-interval'
                 else:
                     fast = r[4]
-                    ival = FAST if fast else pollint
-                    after = 'fast-on' if fast else 'fast-off'
+                    if fast:
+                        fast_ival = FAST
+                    ival = fast_ival if fast else pollint
+                    after = 'fast-on' if fast else 'fast-off-after-interval-change' if changed_in_fast else 'fast-off'
+                    changed_in_fast = False
                 if due is not None:
                     due = t + ival
                 continue
@@ -578,7 +618,7 @@ def judge(world, run):
                 continue
             # a doPoll start or the end of the run
             if due is not None and t > due:
-                idle = idle_time(calls, due, t)
+                idle = busy.idle(due, t)
                 what = f'{name}.doPoll' + (' never started again' if r[0] == 'end' else f' started at t={rel(run, t)}')
                 if idle > EPS:
                     res.append((f'C13:main-poll:thread-idle-past-due-time:after={after}',
@@ -586,9 +626,8 @@ def judge(world, run):
                                 f'{idle:.4g}s in between'))
                 else:
                     cnt = {}
-                    for c in calls:
-                        if due < c[3] < t:
-                            cnt[(c[1], c[2])] = cnt.get((c[1], c[2]), 0) + 1
+                    for c in busy.started_between(due, t):
+                        cnt[(c[1], c[2])] = cnt.get((c[1], c[2]), 0) + 1
                     twice = sorted(k for k, v in cnt.items() if v > 1)
                     if twice:
                         res.append((f'C13:main-poll:more-than-one-sweep-while-due:after={after}',
@@ -607,7 +646,7 @@ def judge(world, run):
                     last = r[1] if last is None else last
                 elif r[0] == 'call' and r[1] == name and r[2] in fns:
                     if last is not None:
-                        idle = idle_time(calls, last, r[3])
+                        idle = busy.idle(last, r[3]) if r[3] - last > 2 * si else 0.0
                         if idle > 2 * si + EPS:
                             res.append((f'C13:slow-poll:not-refreshed-within-2-slowintervals:{FNKIND[fns[0]]}',
                                         f'{name}.{label}: read at t={rel(run, last)} and next at t={rel(run, r[3])}; the '
@@ -616,7 +655,7 @@ def judge(world, run):
                     last = r[3]
             else:
                 if last is not None:
-                    idle = idle_time(calls, last, t_end)
+                    idle = busy.idle(last, t_end)
                     if idle > 2 * si + EPS:
                         res.append((f'C13:slow-poll:not-refreshed-within-2-slowintervals:{FNKIND[fns[0]]}',
                                     f'{name}.{label}: last read at t={rel(run, last)}, not again until the end of the run '
@@ -637,18 +676,18 @@ def configs(tier):
     """list of {'layout', 'ivals': [(pollinterval, slowinterval) per polled module], 'phase', 'base', 'bound'}"""
     res = []
 
-    def add(layout, ivals, phase=0.37, base='idle'):
+    def add(layout, ivals, phase=0.37, base='idle', **extra):
         n = len(LAYOUTS[layout][1])
         if len(ivals) == 1:
             ivals = ivals * n
-        cfg = {'layout': layout, 'ivals': [list(x) for x in ivals], 'phase': phase, 'base': base, 'bound': 2}
+        cfg = dict({'layout': layout, 'ivals': [list(x) for x in ivals], 'phase': phase, 'base': base, 'bound': 2}, **extra)
         if cfg not in res:
             res.append(cfg)
 
     matched = [(0.1, 0.1), (1, 2), (5, 15), (5, 2)]
     for pair in matched:
         add('A', [pair])
-    add('A', [(1, 2)], phase=0)
+    add('A', [(1, 2)], phase=0, events='ext')
     add('S', [(1, 0.1)])
     add('io+S+T', [(1, 2)])
     add('io+S+T', [(5, 15), (1, 2)])
@@ -657,7 +696,12 @@ def configs(tier):
     add('io+A+B', [(1, 2)])
     add('IO+S', [(0, 2), (1, 2)], base='busy')
     add('io+S+T', [(1, 2)], base='busy')
+    # sequences of external events (fast on, interval change, fast off ...): <= 3 deviations, wake-ups only, with the
+    # extended event alphabet (setFastPoll(True, 0))
+    for layout, ivals in (('S', [(5, 15)]), ('S', [(1, 2)])):
+        add(layout, ivals, devs='events', events='ext', bound=3, cap=EVENT_CAP)
     if tier != 'quick':
+        add('io+S+T', [(5, 2), (1, 2)], devs='events', events='ext', bound=3, cap=EVENT_CAP)
         add('IO+S', [(5, 15), (1, 2)], phase=0)
         add('S', [(0.1, 2)])
         for pair in matched:
@@ -692,7 +736,7 @@ def configs(tier):
 def bounds(tier):
     """cap = horizon in choice points; window = how far behind the 2nd deviation the 3rd may lie (configurations with
     bound 3, thorough only)"""
-    return dict(cap=44, window=3, nshards=12) if tier == 'quick' else dict(cap=64, window=3, nshards=24)
+    return dict(cap=44, window=3, nshards=16) if tier == 'quick' else dict(cap=64, window=3, nshards=32)
 
 
 def explore(cfg, shard, b, part, only_forced=None):
@@ -700,7 +744,7 @@ def explore(cfg, shard, b, part, only_forced=None):
     first = {}
 
     def run_one(forced, count):
-        run = world.execute(forced, b['cap'])
+        run = world.execute(forced, cfg.get('cap', b['cap']))
         if not forced:
             first['trace'] = list(run.trace)
         if count:
@@ -714,14 +758,14 @@ def explore(cfg, shard, b, part, only_forced=None):
         else:
             allow = None
             bound = cfg.get('bound', 2)
-            if bound > 2:
+            if bound > 2 and cfg.get('devs') != 'events':
                 def allow(forced, p, w=b['window']):
                     return len(forced) < 2 or p - max(forced) <= w
             enumx.explore_deviations(run_one, bound, shard=shard, allow=allow)
             # the reset between executions must be as good as a fresh node
             fresh = World(cfg)
             try:
-                again = fresh.execute({}, b['cap'])
+                again = fresh.execute({}, cfg.get('cap', b['cap']))
             finally:
                 fresh.close()
             if again.trace != first['trace']:
